@@ -210,3 +210,66 @@ Proof.
   - intros x _. cont.
 Qed.
 End OneSide.
+
+(* ------------------------------------------------------------------ all finite intervals a <= b (either side, or straddling 0) *)
+Section Main.
+Variables INF lam p e1 e2 : R.
+Hypothesis He1 : e1 <> 0.
+Hypothesis He2 : e2 <> 0.
+Definition fin (x : R) : Prop := - INF < x < INF.
+
+Lemma chasles_R (f : R -> R) a b c l1 l2 : is_RInt f a b l1 -> is_RInt f b c l2 -> is_RInt f a c (l1 + l2).
+Proof. exact (is_RInt_Chasles f a b c l1 l2). Qed.
+Lemma ext_pow0 (f : R -> R) a b l : is_RInt f a b l -> is_RInt (fun x => x ^ 0 * f x) a b l.
+Proof. apply is_RInt_ext. intros x _. simpl. ring. Qed.
+Lemma ext_pow1 (f : R -> R) a b l : is_RInt (fun x => x * f x) a b l -> is_RInt (fun x => x ^ 1 * f x) a b l.
+Proof. apply is_RInt_ext. intros x _. simpl. ring. Qed.
+
+Theorem hem_mass_is_RInt a b : a <= b ->
+  is_RInt (fun x => x ^ 0 * hem_nu lam p e1 e2 x) a b (hem_integrate INF lam p e1 e2 a b).
+Proof.
+  intros Hab. apply ext_pow0.
+  destruct (Rle_dec b 0) as [Hb | Hb].
+  { rewrite hem_integrate_neg by assumption. apply is_RInt_hem_mass_neg; assumption. }
+  apply Rnot_le_lt in Hb.
+  destruct (Rle_dec 0 a) as [Ha | Ha].
+  { rewrite hem_integrate_pos by assumption. apply is_RInt_hem_mass_pos; assumption. }
+  apply Rnot_le_lt in Ha.
+  rewrite hem_integrate_straddle by assumption.
+  apply (chasles_R _ a 0 b).
+  - rewrite hem_integrate_neg by lra. apply is_RInt_hem_mass_neg; lra.
+  - rewrite hem_integrate_pos by lra. apply is_RInt_hem_mass_pos; lra.
+Qed.
+
+Theorem hem_x_is_RInt a b : a <= b -> fin a -> fin b ->
+  is_RInt (fun x => x ^ 1 * hem_nu lam p e1 e2 x) a b (hem_integrate_x INF lam p e1 e2 a b).
+Proof.
+  intros Hab [Fa _] [_ Fb]. apply ext_pow1.
+  destruct (Rle_dec b 0) as [Hb | Hb].
+  { rewrite hem_integrate_x_neg by assumption. apply is_RInt_hem_x_neg; assumption. }
+  apply Rnot_le_lt in Hb.
+  destruct (Rle_dec 0 a) as [Ha | Ha].
+  { rewrite hem_integrate_x_pos by assumption. apply is_RInt_hem_x_pos; assumption. }
+  apply Rnot_le_lt in Ha.
+  rewrite hem_integrate_x_straddle by assumption.
+  apply (chasles_R _ a 0 b).
+  - rewrite hem_integrate_x_neg by lra. apply is_RInt_hem_x_neg; lra.
+  - rewrite hem_integrate_x_pos by lra. apply is_RInt_hem_x_pos; lra.
+Qed.
+
+Theorem hem_xx_is_RInt a b : a <= b -> fin a -> fin b ->
+  is_RInt (fun x => x ^ 2 * hem_nu lam p e1 e2 x) a b (hem_integrate_xx INF lam p e1 e2 a b).
+Proof.
+  intros Hab [Fa _] [_ Fb].
+  destruct (Rle_dec b 0) as [Hb | Hb].
+  { rewrite hem_integrate_xx_neg by assumption. apply is_RInt_hem_xx_neg; assumption. }
+  apply Rnot_le_lt in Hb.
+  destruct (Rle_dec 0 a) as [Ha | Ha].
+  { rewrite hem_integrate_xx_pos by assumption. apply is_RInt_hem_xx_pos; assumption. }
+  apply Rnot_le_lt in Ha.
+  rewrite hem_integrate_xx_straddle by assumption.
+  apply (chasles_R _ a 0 b).
+  - rewrite hem_integrate_xx_neg by lra. apply is_RInt_hem_xx_neg; lra.
+  - rewrite hem_integrate_xx_pos by lra. apply is_RInt_hem_xx_pos; lra.
+Qed.
+End Main.
